@@ -213,7 +213,11 @@ func (b *Builder) addFile(pkgPath importPathString, path string, src []byte, use
 	b.userRequested[pkgPath] = userRequested || b.userRequested[pkgPath]
 
 	b.parsed[pkgPath] = append(b.parsed[pkgPath], parsedFile{path, p})
+	trailing := trailingComments(b.fset, p)
 	for _, c := range p.Comments {
+		if trailing[c] {
+			continue
+		}
 		position := b.fset.Position(c.End())
 		b.endLineToCommentGroup[fileLine{position.Filename, position.Line}] = c
 	}
@@ -228,6 +232,35 @@ func (b *Builder) addFile(pkgPath importPathString, path string, src []byte, use
 		b.importGraph[pkgPath][importedPath] = struct{}{}
 	}
 	return nil
+}
+
+// trailingComments returns the comment groups of f which start on a line on
+// which code ends before them (e.g. "X int // comment"). Such a comment belongs
+// to that code: it is not a doc comment or a detached comment of whatever
+// follows it.
+func trailingComments(fset *token.FileSet, f *ast.File) map[*ast.CommentGroup]bool {
+	firstEnd := map[int]token.Pos{} // line -> earliest end of a node ending on it
+	ast.Inspect(f, func(n ast.Node) bool {
+		switch n.(type) {
+		case nil:
+			return false
+		case *ast.File, *ast.Comment, *ast.CommentGroup:
+			return true
+		}
+		end := n.End()
+		line := fset.Position(end).Line
+		if cur, ok := firstEnd[line]; !ok || end < cur {
+			firstEnd[line] = end
+		}
+		return true
+	})
+	out := map[*ast.CommentGroup]bool{}
+	for _, c := range f.Comments {
+		if end, ok := firstEnd[fset.Position(c.Pos()).Line]; ok && end <= c.Pos() {
+			out[c] = true
+		}
+	}
+	return out
 }
 
 // AddDir adds an entire directory, scanning it for go files. 'dir' should have
